@@ -43,6 +43,31 @@ def check_case(case):
         r.states = 1
         return r
     coef = [float(x) for x in atomlib.formfactor[el]]
+    # interaction with the file readers: a CIF whose atom-type loop lists THIS element with dispersion terms and (made-up) Cromer-Mann
+    # coefficients is read first, in this process; the table and everything FormFactor returns below must be what they were
+    import os
+    import shutil
+    import tempfile
+
+    tmp = tempfile.mkdtemp(prefix="xmc_c16_", dir="/dev/shm" if os.path.isdir("/dev/shm") else None)
+    try:
+        sym = el[0] + el[1:].lower()
+        txt = "\n".join(["data_blk", "_symmetry_space_group_name_H-M   'P 21/c'", "_cell_length_a 8.5312", "_cell_length_b 4.8321", "_cell_length_c 10.1250",
+                         "_cell_angle_alpha 90.0", "_cell_angle_beta 92.031", "_cell_angle_gamma 90.0", "loop_", "_atom_type_symbol", "_atom_type_scat_dispersion_real",
+                         "_atom_type_scat_dispersion_imag"] + ["_atom_type_scat_Cromer_Mann_%s" % k_ for k_ in ("a1", "a2", "a3", "a4", "b1", "b2", "b3", "b4", "c")]
+                        + ["'%s' 0.0033 0.0016 1.1 2.2 3.3 0.4 10.5 20.6 30.7 40.8 0.9" % sym, "loop_", "_atom_site_label", "_atom_site_type_symbol", "_atom_site_fract_x",
+                           "_atom_site_fract_y", "_atom_site_fract_z", "_atom_site_U_iso_or_equiv", "_atom_site_adp_type", "%s1 %s 0.10603 0.2035 0.5 0.0171 Uiso" % (sym, sym)]) + "\n"
+        fn = os.path.join(tmp, "e.cif")
+        with open(fn, "w") as fh:
+            fh.write(txt)
+        try:
+            structure.build_atomlist().CIFread(fn)
+        except Exception:  # the reader has its own property (C17); here only its after-effects on the form-factor table matter
+            pass
+    finally:
+        shutil.rmtree(tmp, ignore_errors=True)
+    r.require([float(x) for x in atomlib.formfactor[el]] == coef, el + ":table-after-cif", "reading a CIF that lists this element leaves the form-factor table as it was", coef,
+              [float(x) for x in atomlib.formfactor[el]])
     z = O.Z.get(el)
     r.require(z is not None, el + ":Z", "element symbol known", None, el)
     if z is None:
@@ -66,6 +91,16 @@ def check_case(case):
             break
         prev = f
     r.check("formula", worst, 1e-12, el + ":formula", "FormFactor = sum a_i exp(-b_i s^2) + c", None, worst)
+    # the decimal grid is blind to an argument rounded to a few decimals: the same on values with no round digits, and strict decrease
+    # between points 3e-7 apart (a staircase in s would be flat there)
+    for s0 in (1.0 / 3.0, math.sqrt(2) / 2, 0.1234567891, math.pi / 10, 1.9999994, math.e / 2, 0.05 + 1e-7 / 3):
+        f = float(structure.FormFactor(el, s0))
+        ref = O.formfactor_ref(coef, s0)
+        r.check("formula-unround", abs(f - ref) / max(1.0, abs(ref)), 1e-12, el + ":formula:s=%r" % s0, "FormFactor at an s with no round digits", ref, f)
+        f1, f2 = float(structure.FormFactor(el, s0 + 1e-7)), float(structure.FormFactor(el, s0 + 4e-7))
+        d_ref = O.formfactor_ref(coef, s0 + 1e-7) - O.formfactor_ref(coef, s0 + 4e-7)
+        if d_ref > 1e-12:
+            r.require(f1 > f2, el + ":decreasing-fine:s=%r" % s0, "f decreases between s+1e-7 and s+4e-7", "f1 > f2", [f1, f2])
     # the same formula for every kind of argument the function accepts today: numpy scalar, 0-d array, 1-d array, list-derived array
     import numpy as np
 
